@@ -26,14 +26,30 @@ Theorem C09_history_independent : forall sem ops T C C0,
 Proof. intros sem ops T C C0. apply history_independent. exact frame_ok_pf. Qed.
 Print Assumptions C09_history_independent.
 
+(* the same for the optimal power flow (AC/DC), now that it clears the lookups of the previous calculation; DC power flows
+   run prog_pf since they re-initialise the result tables *)
+Theorem C09_history_independent_opf : forall sem ops T C C0,
+  Forall hop_ok ops ->
+  C F_AUX = sem FN_CLEAN [] -> C0 F_AUX = sem FN_CLEAN [] ->
+  forall c, In c (writes prog_opf) ->
+  exec sem (fst (hrun sem ops T C)) prog_opf (snd (hrun sem ops T C)) c = exec sem (fst (hrun sem ops T C)) prog_opf C0 c.
+Proof. intros sem ops T C C0. apply history_independent. exact frame_ok_opf. Qed.
+Print Assumptions C09_history_independent_opf.
+
+(* the OPF before that repair read the lookups first and really depended on them *)
+Theorem C09_opf_old_depends_on_history_refuted :
+  exists sem T C1 C2, C1 F_AUX = C2 F_AUX /\ exec sem T prog_opf_old C1 F_RES_BUS <> exec sem T prog_opf_old C2 F_RES_BUS.
+Proof. exact opf_old_depends_on_history. Qed.
+Print Assumptions C09_opf_old_depends_on_history_refuted.
+
 (* the read-before-write sets of the three modelled calculations (compared with the access log of the real code) *)
 Theorem C09_read_before_write_sets :
-  rbw prog_pf = [F_AUX] /\ rbw prog_pf_results = [F_RES_BUS; F_AUX; F_RES_BUS; F_RES_OTHER] /\ rbw prog_opf = [F_AUX; F_LOOKUPS].
+  rbw prog_pf = [F_AUX] /\ rbw prog_pf_results = [F_RES_BUS; F_AUX; F_RES_BUS; F_RES_OTHER] /\ rbw prog_opf = [F_AUX] /\
+  rbw prog_opf_old = [F_AUX; F_LOOKUPS].
 Proof. exact rbw_sets. Qed.
 Print Assumptions C09_read_before_write_sets.
 
-(* init="results" (and the OPF through the uncleared lookups) are outside the frame theorem, and for init="results"
-   the dependence is real *)
+(* init="results" is outside the frame theorem (it reads the previous results by design), and the dependence is real *)
 Theorem C09_results_depend_on_history_refuted :
   exists sem T C1 C2, C1 F_AUX = C2 F_AUX /\ exec sem T prog_pf_results C1 F_RES_BUS <> exec sem T prog_pf_results C2 F_RES_BUS.
 Proof. exact results_depend_on_history. Qed.
